@@ -177,7 +177,7 @@ GROUPS = [
     Group('mirrorY', 'h_mirrorY', enforce='TBIndex_mirrorY', min_props=2),
     Group('mirrorD', 'h_mirrorD', enforce='TBIndex_mirrorD', min_props=2),
     Group('getSquare', 'h_getSquare', enforce='TBIndex_getSquare', replace=('TBIndex_pieceShift',), min_props=3),
-    Group('setSquare', 'h_setSquare', enforce='TBIndex_setSquare', replace=('TBIndex_pieceShift', 'TBIndex_getSquare', 'TBIndex_mirrorX', 'TBIndex_mirrorY', 'TBIndex_mirrorD'), min_props=5, timeout=900),
+    Group('setSquare', 'h_setSquare', enforce='TBIndex_setSquare', replace=('TBIndex_pieceShift', 'TBIndex_getSquare', 'TBIndex_mirrorX', 'TBIndex_mirrorY', 'TBIndex_mirrorD'), min_props=5, timeout=3600),
     Group('sortPieces', 'h_sortPieces', enforce='TBIndex_sortPieces', min_props=5, timeout=1800),
     Group('lemma_canon_diag', 'h_lemma_canon_diag', min_props=5, timeout=10800, tier='thorough'),   # 13 min
     Group('staticInitialize', 'h_staticInit', enforce='TBIndex_staticInitialize', min_props=5, timeout=1800,
